@@ -136,21 +136,32 @@ def unit_ctx(u, res):
     res.exec_s += time.time() - t0
     res.paths += len(outs)
     name = 'HashMapContext{%s}%s fn:%s, %s format' % (','.join(shapes), '', with_fn, mode)
-    if len(outs) != 1 or outs[0].kind != 'return' or outs[0].value.variant != 0:
-        res.obligations += 1
-        res.sat.append(dict(key='serializing a context fails', shapes=shapes, witness='%s: serialize -> %s' % (name, [(o.kind, repr(o.value)[:120]) for o in outs])))
-        return
-    content = outs[0].value.fields[0]
     ser_trace = list(W.trace)
-    # what was written must not mention functions (they cannot be serialized) and must carry both other fields
-    W.trace = []
     de_body = W.deserialize_body('HashMapContext')
-    ex2 = W.install(C.new_exec())
-    ex2, outs2 = C.run(de_body, lambda st: [Adt('ModelDeserializer', 0, [copy_value(content)])], pc=outs[0].pc, ex=ex2)
+    res.bodies |= ex.bodies_used
+    res.models |= ex.models_used
+    res.feas_queries += ex.nq
+    outs2 = []
+    for o1 in outs:
+        if o1.kind != 'return' or o1.value.variant != 0:
+            feas, model = pr.feasible(o1.pc)
+            if feas is None:
+                res.unknown.append(name + ' (serialize)')
+            elif feas:
+                pre = [render_value(C.meta, v, model) for v in vals]
+                res.sat.append(dict(key='serializing a context fails', ctx=True, shapes=shapes, with_fn=with_fn, mode=mode, pre_vars=list(zip(names, pre)),
+                                    disabled=z3.is_true(model.eval(flag, model_completion=True)),
+                                    witness='%s with %s: serialize -> %s %s' % (name, list(zip(names, pre)), o1.kind, repr(o1.value)[:160])))
+            continue
+        W.trace = []
+        ex2 = W.install(C.new_exec())
+        content = o1.value.fields[0]
+        ex2, part = C.run(de_body, lambda st: [Adt('ModelDeserializer', 0, [copy_value(content)])], pc=o1.pc, ex=ex2)
+        res.bodies |= ex2.bodies_used
+        res.models |= ex2.models_used
+        res.feas_queries += ex2.nq
+        outs2 += part
     res.exec_s += time.time() - t0
-    res.bodies |= ex.bodies_used | ex2.bodies_used
-    res.models |= ex.models_used | ex2.models_used
-    res.feas_queries += ex.nq + ex2.nq
     res.paths += len(outs2)
     for o in outs2:
         res.nontrivial_paths += 1
